@@ -302,6 +302,17 @@ func (r *RemoteList) CopyAddrs(preferredRanges []netip.Prefix) []netip.AddrPort 
 	return c
 }
 
+// CopyRelays locks and returns a copy of the deduplicated relay list as of the last Rebuild
+func (r *RemoteList) CopyRelays() []netip.Addr {
+	if r == nil {
+		return nil
+	}
+
+	r.RLock()
+	defer r.RUnlock()
+	return slices.Clone(r.relays)
+}
+
 // LearnRemote locks and sets the learned slot for the owner vpn ip to the provided addr
 // Currently this is only needed when HostInfo.SetRemote is called as that should cover both handshaking and roaming.
 // It will mark the deduplicated address list as dirty, so do not call it unless new information is available
